@@ -1434,6 +1434,69 @@ def _identity_proof(ctx, fi, e, idx_name, length_name, depth=0):
     return None
 
 
+def _unwrap_int(e):
+    while isinstance(e, ast.Call) and call_name(e) in ("int", "float") and len(e.args) == 1 and not isinstance(e.func, ast.Attribute):
+        e = e.args[0]
+    return e
+
+
+def _run_proof(ctx, fi, e, idx_name, depth=0):
+    """Does the truth of `e` prove that every entry of the index list is the successor of the previous one (a run a, a+1, ..)?
+    all(b - a == 1 for a, b in zip(idx[:-1], idx[1:])) / all(np.diff(idx) == 1) / a private helper returning one of these."""
+    if depth > 2:
+        return None
+    if isinstance(e, ast.Call) and call_name(e) == "all" and len(e.args) == 1:
+        g = e.args[0]
+        if isinstance(g, (ast.GeneratorExp, ast.ListComp)) and len(g.generators) == 1 and not g.generators[0].ifs:
+            gen = g.generators[0]
+            it = gen.iter
+            if isinstance(it, ast.Call) and call_name(it) == "zip" and len(it.args) == 2 and isinstance(gen.target, ast.Tuple) \
+                    and len(gen.target.elts) == 2 and all(isinstance(x, ast.Name) for x in gen.target.elts):
+                def part(x):
+                    """'head' for idx[:-1], 'tail' for idx[1:]"""
+                    if isinstance(x, ast.Subscript) and _whole_list(x.value, idx_name) and isinstance(x.slice, ast.Slice) and x.slice.step is None:
+                        lo, hi = x.slice.lower, x.slice.upper
+                        if lo is None and isinstance(hi, ast.UnaryOp) and isinstance(hi.op, ast.USub) and isinstance(hi.operand, ast.Constant) \
+                                and hi.operand.value == 1:
+                            return "head"
+                        if hi is None and isinstance(lo, ast.Constant) and lo.value == 1:
+                            return "tail"
+                    return None
+                parts = [part(a) for a in it.args]
+                if sorted(p for p in parts if p) == ["head", "tail"]:
+                    prev = gen.target.elts[parts.index("head")].id
+                    nxt = gen.target.elts[parts.index("tail")].id
+                    c = g.elt
+                    if isinstance(c, ast.Compare) and len(c.ops) == 1 and isinstance(c.ops[0], ast.Eq):
+                        for l, r in ((c.left, c.comparators[0]), (c.comparators[0], c.left)):
+                            l = _unwrap_int(l)
+                            # next - prev == 1
+                            if isinstance(l, ast.BinOp) and isinstance(l.op, ast.Sub) and isinstance(r, ast.Constant) and r.value == 1 \
+                                    and isinstance(_unwrap_int(l.left), ast.Name) and _unwrap_int(l.left).id == nxt \
+                                    and isinstance(_unwrap_int(l.right), ast.Name) and _unwrap_int(l.right).id == prev:
+                                return "all(next - previous == 1)"
+                            # next == prev + 1
+                            rr = _unwrap_int(r)
+                            if isinstance(l, ast.Name) and l.id == nxt and isinstance(rr, ast.BinOp) and isinstance(rr.op, ast.Add):
+                                for a, b in ((rr.left, rr.right), (rr.right, rr.left)):
+                                    if isinstance(_unwrap_int(a), ast.Name) and _unwrap_int(a).id == prev and isinstance(b, ast.Constant) and b.value == 1:
+                                        return "all(next == previous + 1)"
+        if isinstance(g, ast.Compare) and len(g.ops) == 1 and isinstance(g.ops[0], ast.Eq) and isinstance(g.left, ast.Call) \
+                and call_name(g.left) == "diff" and len(g.left.args) == 1 and _whole_list(g.left.args[0], idx_name) \
+                and isinstance(g.comparators[0], ast.Constant) and g.comparators[0].value == 1:
+            return "all(diff(idx) == 1)"
+    if isinstance(e, ast.Call):
+        g = _R.private_helper(ctx, fi, e)
+        binding = _R.bind_args(e, g) if g is not None else None
+        if binding:
+            p_idx = [p for p, a in binding.items() if isinstance(a, ast.Name) and a.id == idx_name]
+            rets = [r for r in walk_shallow(g.node) if isinstance(r, ast.Return)]
+            if len(p_idx) == 1 and len(rets) == 1 and rets[0].value is not None:
+                inner = _run_proof(ctx, g, rets[0].value, p_idx[0], depth + 1)
+                return f"{inner} in {g.qualname}" if inner else None
+    return None
+
+
 def _anc_is_loop_over(st, idx_name):
     return any(isinstance(a, ast.For) and _mentions(a.iter, idx_name) for a in _anc(st))
 
@@ -1517,6 +1580,25 @@ def r6_indexing_dropped_only_for_identity(ctx, rid):
         proof = None
         for t, pol in lits:
             proof = proof or _identity_proof(ctx, f, t if pol else ast.UnaryOp(op=ast.Not(), operand=t), pi, pl)
+        if not proof:
+            # a run of consecutive positions that starts at 0 and has the variable's length is the identity as well
+            run = None
+            starts_at_zero = full_length = False
+            for t, pol in lits:
+                if not pol:
+                    continue
+                run = run or _run_proof(ctx, f, t, pi)
+                if isinstance(t, ast.Compare) and len(t.ops) == 1 and isinstance(t.ops[0], ast.Eq):
+                    for x, y in ((t.left, t.comparators[0]), (t.comparators[0], t.left)):
+                        xv = _unwrap_int(_inline(ctx, f, x) if isinstance(x, ast.Name) else x)
+                        if isinstance(y, ast.Constant) and y.value == 0 and y.value is not False and isinstance(xv, ast.Subscript) \
+                                and _whole_list(xv.value, pi) and isinstance(xv.slice, ast.Constant) and xv.slice.value == 0:
+                            starts_at_zero = True
+                        if isinstance(x, ast.Call) and call_name(x) == "len" and len(x.args) == 1 and _whole_list(x.args[0], pi) \
+                                and isinstance(y, ast.Name) and y.id == pl:
+                            full_length = True
+            if run and starts_at_zero and full_length:
+                proof = f"{run}, first position 0, length {pl}"
         if proof:
             ctx.ok(rid, f, r, f"indexing is dropped only after an element-wise identity proof ({proof})", facts, label=label)
             continue
@@ -2006,6 +2088,117 @@ def r10_records_own_their_value(ctx, rid):
         raise AnalysisError(f"{rid}: only {n_rec} variable records registered in loops were found (anchor vanished)")
 
 
+# ------------------------------------------------------------------------------------------------
+# R11  buffer slots are merged only under a key that covers every per-slot quantity
+# ------------------------------------------------------------------------------------------------
+
+def r11_slot_merge_key(ctx, rid):
+    """NetworkGraph._add_edge_buffer builds one buffer slot (ring-buffer read-out / gamma-kernel chain element) per delayed projection
+    from parallel per-projection sequences (source element, delay, spread ...).  With vectorize=True it sees all projections of a
+    source variable at once; when it merges projections into shared slots (a first-occurrence registry keyed by some tuple, after
+    which the sequences are reduced to one entry per slot), two projections may share a slot only if they agree in EVERY sequence
+    that is reduced that way - those are exactly the quantities the slot's dynamics are built from.  A key that leaves one of them
+    out gives the second projection the first one's value of it (vectorize=False builds every edge on its own and differs).
+    Decided structurally: registry dict + membership test + first-occurrence list, the sequences filtered by that list, and the
+    sequences the key's components are drawn from (zip targets / subscripts by the loop index, through local aliases)."""
+    cls = ctx.repo.get_class(IR, "NetworkGraph")
+    f_orig = get_method(ctx, cls, "_add_edge_buffer")
+    f = _R.view(ctx, f_orig)
+    cfg, rd = ctx.cfg(f), ctx.rd(f)
+    merges = []
+    for loop in [l for l in walk_shallow(f.node) if isinstance(l, ast.For)]:
+        for test in [t for t in walk_shallow(loop) if isinstance(t, ast.If) and in_body(loop, t)]:
+            c = test.test
+            pol = True
+            while isinstance(c, ast.UnaryOp) and isinstance(c.op, ast.Not):
+                c, pol = c.operand, not pol
+            if not (isinstance(c, ast.Compare) and len(c.ops) == 1 and isinstance(c.ops[0], (ast.In, ast.NotIn)) and isinstance(c.comparators[0], ast.Name)):
+                continue
+            absent_body = test.body if (isinstance(c.ops[0], ast.NotIn) == pol) else test.orelse
+            M = c.comparators[0].id
+            regs = [st for b in absent_body for st in [b] + list(walk_shallow(b)) if isinstance(st, ast.Assign) and len(st.targets) == 1
+                    and isinstance(st.targets[0], ast.Subscript) and isinstance(st.targets[0].value, ast.Name) and st.targets[0].value.id == M
+                    and ast.dump(st.targets[0].slice) == ast.dump(c.left)]
+            firsts = [st.value.func.value.id for b in absent_body for st in [b] + list(walk_shallow(b))
+                      if isinstance(st, ast.Expr) and isinstance(st.value, ast.Call) and isinstance(st.value.func, ast.Attribute)
+                      and st.value.func.attr == "append" and isinstance(st.value.func.value, ast.Name)]
+            if regs and firsts:
+                merges.append((loop, test, c.left, M, firsts))
+    if not merges:
+        ctx.ok(rid, f_orig, f_orig.node, "projections are never merged into shared buffer slots: every delayed projection gets a slot of its own",
+               label="slot merge key covers the per-slot quantities", nontrivial=False)
+        return
+    for loop, test, key, M, firsts in merges:
+        kexpr = key
+        if isinstance(key, ast.Name):
+            kexpr = single_def_value(ctx, f, key)
+            if kexpr is None:
+                raise AnalysisError(f"{rid}: the slot key `{key.id}` has no single definition in {f.qual} (unrecognised form)")
+        # sequences reduced to one entry per slot through the first-occurrence list
+        reduced = {}
+        for st in cfg.stmts():
+            if not (isinstance(st, ast.Assign) and len(st.targets) == 1 and isinstance(st.targets[0], ast.Name)) or contains(loop, st):
+                continue
+            v = st.value
+            base = None
+            if isinstance(v, ast.ListComp) and len(v.generators) == 1 and isinstance(v.generators[0].iter, ast.Name) and v.generators[0].iter.id in firsts \
+                    and isinstance(v.elt, ast.Subscript) and isinstance(v.elt.value, ast.Name):
+                base = v.elt.value.id
+            elif isinstance(v, ast.Subscript) and isinstance(v.value, ast.Name) and isinstance(v.slice, ast.Name) and v.slice.id in firsts:
+                base = v.value.id
+            elif isinstance(v, ast.Call) and call_name(v) in ("take", "asarray", "array") and any(isinstance(x, ast.Name) and x.id in firsts for x in ast.walk(v)):
+                raise AnalysisError(f"{rid}: `{norm(st)}` reduces a sequence by the first-occurrence list in an unrecognised form")
+            if base is not None:
+                reduced.setdefault(base, st)
+        if not reduced:
+            raise AnalysisError(f"{rid}: slots are merged under `{norm(kexpr)}` in {f.qual} but no sequence is reduced to one entry per slot "
+                                f"(cannot tell what a slot is built from)")
+        # which sequences do the key's components come from?
+        it = loop.iter
+        idx_names, tg = set(), loop.target
+        if isinstance(it, ast.Call) and call_name(it) == "enumerate" and it.args and isinstance(tg, ast.Tuple) and len(tg.elts) == 2:
+            if isinstance(tg.elts[0], ast.Name):
+                idx_names.add(tg.elts[0].id)
+            it, tg = it.args[0], tg.elts[1]
+        elem_of = {}                                  # element name -> sequence expression
+        if isinstance(it, ast.Call) and call_name(it) == "zip" and isinstance(tg, ast.Tuple) and len(tg.elts) == len(it.args):
+            for e, sq in zip(tg.elts, it.args):
+                if isinstance(e, ast.Name):
+                    elem_of[e.id] = sq
+        elif isinstance(it, ast.Call) and call_name(it) == "range" and isinstance(tg, ast.Name):
+            idx_names.add(tg.id)
+        elif isinstance(tg, ast.Name):
+            elem_of[tg.id] = it
+
+        def names_behind(e, depth=0):
+            """names the sequence expression is (conditionally) made of, through single-step local definitions"""
+            out = set()
+            for x in ast.walk(e):
+                if isinstance(x, ast.Name) and isinstance(x.ctx, ast.Load):
+                    out.add(x.id)
+                    if depth < 3 and getattr(x, "_parent", None) is not None:
+                        for d in rd.defs_reaching(x):
+                            v = assigned_value(d, x.id) if isinstance(d, (ast.Assign, ast.AnnAssign)) else None
+                            if v is not None:
+                                out |= names_behind(v, depth + 1)
+            return out
+        covered = set()
+        for x in ast.walk(kexpr):
+            if isinstance(x, ast.Name) and x.id in elem_of:
+                covered |= names_behind(elem_of[x.id])
+            if isinstance(x, ast.Subscript) and isinstance(x.value, ast.Name) and isinstance(x.slice, ast.Name) and x.slice.id in idx_names:
+                covered |= names_behind(x.value)
+        for base, st in sorted(reduced.items(), key=lambda kv: kv[1].lineno):
+            label = f"slot merge key covers `{base}`"
+            facts = {"key": norm(kexpr), "reduced_sequences": sorted(reduced), "key_draws_from": sorted(covered & set(reduced))}
+            if base in covered:
+                ctx.ok(rid, f, st, f"projections share a slot only if they agree in `{base}` (a component of the key `{norm(kexpr)}`)", facts, label=label)
+            else:
+                ctx.violation(rid, f, st, f"`{norm(st)[:80]}` keeps one `{base}` entry per shared slot, but the slot key `{norm(kexpr)}` does not depend on "
+                                          f"`{base}`: projections that differ in `{base}` are merged and all get the first one's value, so the "
+                                          f"vectorized network (all projections at once) differs from the edge-by-edge one", facts, label=label)
+
+
 RULES = [
     ("C04-R1", r1_collapse_guard, 8),
     ("C04-R2", r2_append_ranges, 9),
@@ -2017,4 +2210,5 @@ RULES = [
     ("C04-R8", r_perm_identity, 1),
     ("C04-R9", r9_shared_ir_slots, 2),
     ("C04-R10", r10_records_own_their_value, 6),
+    ("C04-R11", r11_slot_merge_key, 1),
 ]
